@@ -15,6 +15,10 @@ pub mod c07;
 pub mod c03;
 #[cfg(feature = "full")]
 pub mod c02;
+#[cfg(feature = "full")]
+pub mod c13;
+#[cfg(feature = "full")]
+pub mod c14;
 pub mod c12;
 #[cfg(feature = "full")]
 pub mod common;
@@ -38,6 +42,10 @@ pub fn run(prop: &str, ctx: &Ctx) -> Option<Report> {
         "C03" => Some(c03::run(ctx)),
         #[cfg(feature = "full")]
         "C02" => Some(c02::run(ctx)),
+        #[cfg(feature = "full")]
+        "C13" => Some(c13::run(ctx)),
+        #[cfg(feature = "full")]
+        "C14" => Some(c14::run(ctx)),
         "C12" => Some(c12::run(ctx)),
         _ => None,
     }
@@ -58,6 +66,10 @@ pub fn replay(prop: &str, ctx: &Ctx, case: &Value) -> ReplayResult {
         "C03" => c03::replay(ctx, case),
         #[cfg(feature = "full")]
         "C02" => c02::replay(ctx, case),
+        #[cfg(feature = "full")]
+        "C13" => c13::replay(ctx, case),
+        #[cfg(feature = "full")]
+        "C14" => c14::replay(ctx, case),
         "C12" => c12::replay(ctx, case),
         _ => Err(format!("no replay for property {}", prop)),
     }
